@@ -7,7 +7,14 @@ graph, all paths to depth 2/3, long simulations) are replayed through
 OFConnection bytes and every step's output stream is compared with the spec's;
 code -> spec: random request histories delivered in multi-message, re-segmented
 batches are recorded on the real switch and validated by TLC.
+
+Pipelining is a dimension of the spec (Pipe / MaxBurst): a message may share the
+switch's receive buffer with its successors (args.more), the spec then owes its
+answer and states what the channel shows when the buffer is read (exp.see).
+Malformed-length messages of every controller-to-switch type (BadLen) are part of
+the alphabet, alone and inside bursts; every error names the message it quotes.
 """
+import os
 import copy
 import random
 import re
@@ -17,11 +24,12 @@ from engine import tlc, core, tracecheck
 ADAPTER = "harness.adapters_c13:Adapter"
 DIR, MOD = "switchrpc", "MCSwitchRPC"
 ACTIONS = ["Hello", "EchoReq", "EchoReply", "FeaturesReq", "GetConfigReq", "SetConfig",
-           "BarrierReq", "Vendor", "BadType", "Rx", "PacketOut", "FlowMod", "PortMod",
+           "BarrierReq", "Vendor", "BadType", "BadLen", "Rx", "PacketOut", "FlowMod", "PortMod",
            "StatsDesc", "StatsFlow", "StatsAggr", "StatsTable", "StatsPort", "StatsQueue",
            "StatsVendor", "StatsUnknown", "QueueCfgReq"]
 PROPS = ["AnsweredOnce", "NoReplyUnlessAsked", "NeverSilentWhenInvalid", "BarrierAfterEffects",
-         "RepliesReflectState", "RequestsReadOnly", "ConfigSticks", "ErrorsRejectWhole"]
+         "RepliesReflectState", "RequestsReadOnly", "ConfigSticks", "ErrorsRejectWhole",
+         "Pipelined", "ErrorsQuoteRequest"]
 
 # engine/tlc.py's coverage regex does not match TLC's line for an action whose
 # definition starts with LET ("... of module M (261 3 305 56)>: n:m"); parse
@@ -43,13 +51,25 @@ def require_coverage(res, what):
   return cov
 
 
-def model_check(ctx, cfg, name):
-  r = tlc.run(DIR, MOD, cfg, tag="C13", timeout=1500)
-  if r.violated:
-    raise tlc.TLCError("spec violates its own property %s (%s):\n%s" % (r.violated, cfg, r.error_trace[:3000]))
-  require_coverage(r, name)
-  ctx.add_model(name, r, properties=PROPS + ["TypeOK", "Ordered", "MatchedAccounted"])
-  return r
+def model_check(ctx, runs):
+  """runs: [(cfg, name)]; the TLC runs are independent and run side by side."""
+  res = tlc.run_many([dict(spec_dir=DIR, module=MOD, cfg=cfg, tag="C13", timeout=1500) for cfg, _ in runs],
+                     parallel=len(runs))
+  for (cfg, name), r in zip(runs, res):
+    if r.violated:
+      raise tlc.TLCError("spec violates its own property %s (%s):\n%s" % (r.violated, cfg, r.error_trace[:3000]))
+    require_coverage(r, name)
+    ctx.add_model(name, r, properties=PROPS + ["TypeOK", "Ordered", "MatchedAccounted"])
+  return res
+
+
+def len_kinds():
+  """the malformed-length kinds (k, cls) - read from the spec, the one source of truth."""
+  src = open(os.path.join(tlc.SPECS, DIR, "SwitchRPC.tla")).read()
+  ks = re.findall(r'LK\("([^"]+)",\s*"([^"]+)",\s*"[^"]+"\)', src)
+  if len(ks) < 20:
+    raise tlc.TLCError("cannot read the malformed-length kinds from SwitchRPC.tla")
+  return ks
 
 
 def tag_of(a, g):
@@ -63,6 +83,8 @@ def tag_of(a, g):
     return "PortMod-" + g["kind"]
   if a == "StatsReq":
     return "Stats-" + g["st"]
+  if a == "BadLen":
+    return "BadLen-" + g["cls"]
   return a
 
 
@@ -105,7 +127,14 @@ def run(ctx):
               "in / bytes out, and after EVERY step the decoded output stream (type, xid, payload "
               "essentials, error type/code/data) must equal one of the alternatives the spec "
               "allows; in the edge-cover runs the reported state is also read back through the "
-              "wire after every step.  distinct = distinct action/argument sequences; "
+              "wire after every step.  Pipelining is part of the spec: a step with args.more only "
+              "writes the message into the switch's receive buffer, and the step that ends the burst "
+              "hands the whole buffer to the switch in ONE read and compares the stream written with "
+              "exp.see = the answers the spec owes to every message of the burst, in order (all pairs "
+              "of messages, triples in thorough, random bursts of <= 3 in the simulations).  The alphabet "
+              "includes messages whose length is wrong for their type (25 kinds over all request and "
+              "command types); every ERROR is compared on type, code, xid and on WHICH message it quotes.  "
+              "distinct = distinct action/argument sequences; "
               "non-trivial = contains an action other than HELLO")
   ctx.assumptions = [
       "bounds: 2 ports (3 in one thorough simulation), 1-2 packet buffers, flow table capacity 1-2, two fixed "
@@ -118,14 +147,23 @@ def run(ctx):
       "where OpenFlow 1.0 leaves the answer open (port absent in port/queue statistics and queue config, "
       "several applicable error codes) the spec lists the alternatives; silence is never one of them",
       "PORT_STATUS / FLOW_REMOVED notifications are not replies and are ignored here (C04/C12)",
+      "a message whose length field (>= 8) is wrong for its type must be answered by exactly one "
+      "BAD_REQUEST/BAD_LEN error (BAD_ACTION/BAD_LEN also accepted for an embedded action length) with its "
+      "xid, quoting it, and must have no effect; fixed-size messages with trailing bytes are counted as wrong "
+      "(OFPBRC_BAD_LEN: 'wrong request length for type'); HELLO / ECHO bodies of any length are valid",
+      "an error 'quotes' a message when its data starts with that message's 8-byte header (type, length, xid), "
+      "holds at least min(64, length) bytes and no more than the message; bytes after the header are not compared",
+      "frames arrive on the dataplane only between bursts (no order is defined between a frame and "
+      "controller messages that are still unread in the receive buffer)",
   ]
   # 1. the property on the model ------------------------------------------------
-  model_check(ctx, "MC_smallq.cfg" if quick else "MC_small.cfg",
-              "SwitchRPC 2 ports, 1 buffer, table 2, counters<=1, 2 xids")
-  model_check(ctx, "MC_full1q.cfg" if quick else "MC_full1.cfg",
-              "SwitchRPC table capacity 1 (table-full answers)")
-  if not quick:
-    model_check(ctx, "MC_big.cfg", "SwitchRPC 2 buffers, counters<=2, 1 xid")
+  model_check(ctx, [("MC_smallq.cfg" if quick else "MC_small.cfg",
+                     "SwitchRPC 2 ports, 1 buffer, table 2, counters<=1, 2 xids"),
+                    ("MC_full1q.cfg" if quick else "MC_full1.cfg",
+                     "SwitchRPC table capacity 1 (table-full answers)"),
+                    ("MC_pipe.cfg", "SwitchRPC pipelined bursts of <= 3 messages in one receive buffer "
+                                    "(2 xids, table 1, no dataplane traffic)")] +
+              ([] if quick else [("MC_big.cfg", "SwitchRPC 2 buffers, counters<=2, 1 xid")]))
   # 2. spec -> code: every transition of the abstract graph (probe after each step)
   r = tlc.run(DIR, MOD, "EX_edges_cfg.cfg", workers=1, coverage=False, tag="C13")
   replay(ctx, "edges_config", r.tagged("T"), dict(seed=sd * 7 + 1, probe=True, **SMALL))
@@ -152,6 +190,18 @@ def run(ctx):
   if not quick:
     r = tlc.run(DIR, MOD, "EX_paths_D3.cfg", workers=1, coverage=False, tag="C13", timeout=1500)
     replay(ctx, "all_paths_3_thin", r.tagged("H"), dict(seed=sd * 7 + 5, **SMALL), chunk=500)
+  # 3b. pipelining: every sequence of 2 (3) messages written into ONE receive buffer and read
+  #     by the switch in one go (quick: over the thinned alphabet; thorough: full alphabet for
+  #     pairs, a stratified sample of the thinned triples)
+  r = tlc.run(DIR, MOD, "EX_burst_D2q.cfg" if quick else "EX_burst_D2.cfg", workers=1, coverage=False,
+              tag="C13", timeout=1500)
+  replay(ctx, "burst_2", r.tagged("H"), dict(seed=sd * 7 + 6, **SMALL))
+  if not quick:
+    r = tlc.run(DIR, MOD, "EX_burst_D3.cfg", workers=1, coverage=False, tag="C13", timeout=1500)
+    behs = r.tagged("H")
+    total = len(behs)
+    replay(ctx, "burst_3_thin", stratified(behs, 30000, sd), dict(seed=sd * 7 + 7, **SMALL), chunk=500)
+    ctx.notes["replay_burst_3_thin"]["paths_exported"] = total
   # 4. long random behaviours (full alphabet; and without the open-finding variants, so that
   #    histories really reach length 40 on a tree where those findings are open)
   num = 40 if quick else 1200
@@ -236,12 +286,24 @@ def corrupt(traces):
         break
     if len(bad) >= 3:
       break
-  if len(bad) < 3:
+  for tr in traces:
+    for i, e in enumerate(tr):
+      js = [j for j, m in enumerate(e["stream"]) if m.get("t") == "ERROR"] if e["first"] else []
+      if js and not e["lastb"]:
+        c = copy.deepcopy(tr)
+        c[i]["stream"][js[0]]["data"] = "ECHO_REPLY"
+        bad.append(c)
+        what.append("error of a pipelined batch quotes a message of another type")
+        break
+    if len(bad) >= 4:
+      break
+  if len(bad) < 4:
     raise tlc.TLCError("could not build the negative controls from the recorded traces")
   return bad, what
 
 
 XS = ["x1", "x2", "x3"]
+LEN_KINDS = []          # filled from the spec on first use
 RES_OUT, RES_OTHER = 65533, 65531          # as in Trace.cfg
 FLOWARGS = ([(255, "all", o) for o in (65535, 1, 2, 9, RES_OUT, RES_OTHER)] +
             [(0, "all", 65535), (0, "all", RES_OUT), (0, "all", 2),
@@ -347,6 +409,11 @@ def gen(rnd, st):
     else:
       g.update(k=0)
     return "StatsReq", g
+  if k in (27, 28):
+    if not LEN_KINDS:
+      LEN_KINDS.extend(len_kinds())
+    lk, cls = rnd.choice(LEN_KINDS)
+    return "BadLen", dict(xid=x, k=lk, cls=cls)
   return "QueueCfgReq", dict(xid=x, p=rnd.choice([1, 9, 65532]))
 
 
